@@ -17,8 +17,13 @@ func (this EdifactEncoder) getEncodingMode() int {
 func (this EdifactEncoder) encode(context *EncoderContext) error {
 	//step F
 	buffer := make([]byte, 0)
+	startPos := context.pos
 	for context.HasMoreCharacters() {
 		c := context.GetCurrentChar()
+		if !isNativeEDIFACT(c) && context.pos > startPos {
+			// not encodable in EDIFACT: unlatch here
+			break
+		}
 		var e error
 		buffer, e = edifactEncodeChar(c, buffer)
 		if e != nil {
